@@ -49,7 +49,32 @@ def run(unit, only=None, timeout=1500):
             f.write("\n#[cfg(test)]\nmod verif_witness { include!(\"%s\"); }\n" % os.path.join(VERIF, "units", unit, "witness.rs"))
         env = dict(os.environ)
         env["CARGO_NET_OFFLINE"] = "true"
-        env["CARGO_TARGET_DIR"] = os.path.join(SCRATCH_ROOT, "verif-witness-target")   # persistent cache, outside /repo and /verif
+        # Build cache, outside /repo and /verif, KEYED BY THE CONTENT of the copied sources: cargo decides freshness by
+        # mtime, and a scratch copy of an older tree has older mtimes than artifacts built from a newer (e.g. patched)
+        # tree - sharing one target dir across different source states silently reuses stale objects.
+        import hashlib
+        h = hashlib.sha1()
+        for dp, dn, fn in sorted(os.walk(os.path.join(ws, "crates"))):
+            dn.sort()
+            for f in sorted(fn):
+                if f.endswith((".rs", ".toml")):
+                    fp = os.path.join(dp, f)
+                    h.update(os.path.relpath(fp, ws).encode())
+                    with open(fp, "rb") as fh:
+                        h.update(fh.read())
+        with open(os.path.join(ws, "Cargo.lock"), "rb") as fh:
+            h.update(fh.read())
+        cache_root = os.path.join(SCRATCH_ROOT, "verif-witness-cache")
+        os.makedirs(cache_root, exist_ok=True)
+        key = h.hexdigest()[:16]
+        tdir = os.path.join(cache_root, key)
+        # keep at most 3 cached trees
+        olds = sorted((d for d in os.listdir(cache_root) if d != key), key=lambda d: os.path.getmtime(os.path.join(cache_root, d)))
+        for d in olds[:-2]:
+            shutil.rmtree(os.path.join(cache_root, d), ignore_errors=True)
+        os.makedirs(tdir, exist_ok=True)
+        os.utime(tdir, None)
+        env["CARGO_TARGET_DIR"] = tdir
         env["RUSTFLAGS"] = "-Awarnings"
         cmd = ["cargo", "test", "--offline", "-q", "-p", m["package"], "--lib"] + m.get("cargo_args", []) + ["verif_witness", "--", "--nocapture", "--test-threads", "8"]
         if only:
